@@ -574,7 +574,7 @@ def run_obligation(ob, seed, tier):
                 if fails:
                     break
         if fails:
-            reproduced.append({"label": label, "how": how, "env": used, "failures": fails[:5]})
+            reproduced.append({"label": label, "how": how, "env": used, "failures": fails[:200]})
         else:
             inconclusive.append(f"candidate not reproduced on the real code ({how}): {label}"[:400]
                                 + (f" [numeric run error: {err}]" if err else ""))
@@ -590,7 +590,7 @@ def run_obligation(ob, seed, tier):
                     inconclusive.append(f"numeric cross-run error: {err}"[:400])
             if fails:
                 reproduced.append({"label": fails[0][0], "how": "numeric-cross-run", "env": used,
-                                   "failures": fails[:5]})
+                                   "failures": fails[:200]})
                 break
     out["violations"] = reproduced
     out["inconclusive"] = inconclusive
